@@ -415,3 +415,76 @@ FAMILIES.append(
            reach=['second-use-after-the-first-was-released', 'second-use-after-a-reset'],
            bounds='a stored (a & b) | c / a | c object awaited (or used by until) by two waiters '
                   'starting in [0,30] while five flag toggles happen at free gaps in [0,6]'))
+
+
+def fam_sync_sources(E):
+    """derived conditions read the *current* values of their operands, also
+     * inside one turn, when an operand changes synchronously (`task.done` of a task that is
+       cancelled before it started flips while the canceller keeps running), and
+     * when one stored derived condition object is evaluated in two consecutive simulations at
+       the same (time, turn) with an operand changed in between."""
+    shape = E.pick('shape', 4)
+    p = E.pick('p', 3)              # the evaluations happen p turns into the simulation
+    fv = E.flag('fv')
+    a, b = Flag(), Flag()
+    stored = [a | b, a & b, (a & b) | a, ~a | b][shape]
+
+    def ref_stored():
+        va, vb = a._value, b._value
+        return [va or vb, va and vb, (va and vb) or va, (not va) or vb][shape]
+
+    for k in range(2):
+        log = Log()
+
+        async def sub():
+            log('sub', 'start')
+            await (time + 1)
+
+        async def main():
+            async with Scope() as s:
+                for _ in range(p):
+                    await instant
+                # the stored condition, first thing in this simulation at this turn
+                E.prove(bool(stored) == ref_stored(), 'bool-follows-boolean-algebra',
+                        ('simulation %d: stored condition reads %r, operands a=%r b=%r', k,
+                         bool(stored), a._value, b._value))
+                f = Flag()
+                if fv:
+                    await f.set()
+                t = s.do(sub())         # not started before this turn of ours ends
+                conds = [t.done | f, t.done & f, ~t.done & f, ~(t.done | f)]
+                refs = [lambda d, v: d or v, lambda d, v: d and v, lambda d, v: (not d) and v,
+                        lambda d, v: not (d or v)]
+                before = [bool(c) for c in conds]
+                E.prove(before == [r(False, f._value) for r in refs],
+                        'bool-follows-boolean-algebra', ('before the cancel: %r', before))
+                t.cancel()
+                # same turn, same condition objects: task.done is true now
+                after = [bool(c) for c in conds]
+                E.prove(bool(t.done), 'cancelled-unstarted-task-is-done-at-once')
+                E.prove(after == [r(True, f._value) for r in refs],
+                        'bool-follows-boolean-algebra',
+                        ('same turn after cancelling the unstarted task: %r, flag %r', after,
+                         f._value))
+                E.reach('synchronous-change')
+                # change the operands of the stored condition for the next simulation
+                if k == 0:
+                    await a.set(not a._value)
+                    E.prove(bool(stored) == ref_stored(), 'bool-follows-boolean-algebra')
+
+        out = simulate(main(), log=log)
+        bad = classify_run_exception(out.exc, allowed=())
+        E.prove(bad is None, 'run-ends-normally', bad)
+        if out.exc is not None:
+            return
+        E.prove(not log.has('sub', 'start'), 'cancelled-unstarted-task-never-runs')
+        if k == 1:
+            E.reach('second-simulation')
+
+
+FAMILIES.append(
+    Family('sync_sources', fam_sync_sources, quick=dict(), thorough=dict(),
+           reach=['synchronous-change', 'second-simulation'],
+           bounds='4 connective shapes over task.done / a flag evaluated before and after a '
+                  'synchronous change inside one turn; 4 stored shapes over two flags evaluated at '
+                  'the same (time, turn) of two consecutive simulations'))
